@@ -1,6 +1,7 @@
 import CarModel.Driver.Ops
 import CarModel.Driver.Scan
 import CarModel.Cli
+import CarModel.Traversal
 /- Family `cli` — C19: the car sub-commands as functions from input files to output bytes, each output
    archive then judged by the inspection and verification models. -/
 namespace Car.Driver
@@ -111,6 +112,74 @@ def famCli (H : HashFn) (kv : KV) : String × String :=
       | some f => s!"r=ok out={hexOr f} " ++ judgeSpec outRoots log
       | none => "r=err"
     (m, s)
+  else if op == "filterappend" then
+    -- `car filter --append`: reopen the existing CARv2 output under its own roots (a resumed
+    -- session: C12), put the newly selected blocks of `in`, finalize
+    let ver := KV.nat kv "ver" 2
+    let inv := KV.bool kv "inv"
+    let sel := parseCids (KV.getD kv "cids" "-")
+    let keep : Cid → Bool := fun c => if sel.contains c then !inv else inv
+    let prev := KV.bytes kv "prev"
+    let o : WOpts := {}
+    let m := match scanBlockReader H {} true input with
+      | .error _ => "r=err"
+      | .ok x =>
+        if ver != 2 then "r=err" else
+        -- OpenReader(outfile): must be a CARv2 whose inner header can be read
+        match newBlockReader {} true prev with
+        | .error _ => "r=err"
+        | .ok pr =>
+          if pr.version != 2 then "r=err" else
+          let rr := resume .blockstore o (some pr.roots) prev
+          match rr.res with
+          | .error _ => "r=err"
+          | .ok st0 =>
+            -- the walk stops at the first error of the source; blocks put before it stay put
+            let st := (x.blocks.filter fun b => keep b.cid).foldl (fun (s : Store) b => (s.step o (.put b.cid b.data)).1) st0
+            if x.ending != .eof then "r=err" else
+            let fin := st.step o .finalize
+            match fin.2.1 with
+            | .ok => s!"r=ok out={hexOr fin.1.file} " ++ judge H fin.1.file
+            | _ => "r=err"
+    let proots := (parseRoots (KV.getD kv "proots" "nil")).getD []
+    let pblocks := parseBlocks (KV.getD kv "pblocks" "-")
+    let log := specLog o (pblocks ++ blocks.filter fun b => keep b.cid)
+    let s := if ver != 2 || KV.nat kv "pver" 2 != 2 then "r=err" else
+      match Spec.finalFile o (some proots) log with
+      | some f => s!"r=ok out={hexOr f} " ++ judgeSpec proots log
+      | none => "r=err"
+    (m, s)
+  else if op == "getdag" then
+    -- `car get-dag`: the traversal engine's load sequence is an input (`loads`, `eng`); version 2 is a
+    -- store session under the requested root that puts every loaded block, version 1 the root
+    -- module's selective writer (C15)
+    let ver := KV.nat kv "ver" 2
+    let root := (parseCid (KV.getD kv "root" "")).getD default
+    let loads := parseCids (KV.getD kv "loads" "-")
+    let get : Cid → Bytes := fun c => ((blocks.find? fun b => b.cid == c).map (·.data)).getD []
+    let eng := KV.getD kv "eng" "ok"
+    let o : WOpts := {}
+    let res :=
+      if eng != "ok" then "r=err"
+      else if ver == 1 then
+        let v1 := teeOutput [root] get loads
+        s!"r=ok out={hexOr v1} " ++ judge H v1
+      else
+        let (st0, _) := Store.create .blockstore o (some [root])
+        let st := loads.foldl (fun (s : Store) c => (s.step o (.put c (get c))).1) st0
+        let fin := st.step o .finalize
+        match fin.2.1 with
+        | .ok => s!"r=ok out={hexOr fin.1.file} " ++ judge H fin.1.file
+        | _ => "r=err"
+    -- spec: exactly the loaded blocks, once each, in first-load order, under the requested root
+    let log := specLog o (loads.map fun c => ⟨c, get c⟩)
+    let s :=
+      if eng != "ok" then "r=err"
+      else if ver == 1 then s!"r=ok out={hexOr (payload (some [root]) log)} " ++ judgeSpec [root] log
+      else match Spec.finalFile o (some [root]) log with
+        | some f => s!"r=ok out={hexOr f} " ++ judgeSpec [root] log
+        | none => "r=err"
+    (res, s)
   else if op == "concat" then
     let ver := KV.nat kv "ver" 1
     let n := KV.nat kv "n" 1
